@@ -45,6 +45,9 @@ fn sources() -> Vec<Src> {
         Src { name: "missing-include-named-warning", text: "nop\n.include \"warning: x.inc\"\n".into(), extra: vec![], missing_source: false },
         Src { name: "undefined-symbol-named-warning", text: "ldi r16, warning\n".into(), extra: vec![], missing_source: false },
         Src { name: "valid-with-alarming-messages", text: ".warning \"Failed to build? error: no\"\n.message \"error: none, panicked at nothing\"\nldi r16, 3\n".into(), extra: vec![], missing_source: false },
+        Src { name: "valid-eeprom-that-looks-erased", text: "ldi r16, 1\n.eseg\n.dq -1, -1\n.db 1, 2\n.org 32\n.dq -1, -1, -1, -1\n.db 0xff\n".into(), extra: vec![], missing_source: false },
+        Src { name: "valid-eeprom-of-one-erased-record", text: "nop\n.eseg\n.dq -1, -1\n".into(), extra: vec![], missing_source: false },
+        Src { name: "valid-flash-that-looks-erased", text: ".dw 0xffff, 0xffff, 0xffff, 0xffff, 0xffff, 0xffff, 0xffff, 0xffff\n.dw 0xffff, 0xffff, 0xffff, 0xffff, 0xffff, 0xffff, 0xffff, 0xffff\n.eseg\n.db 0\n".into(), extra: vec![], missing_source: false },
         Src { name: "missing-source", text: "".into(), extra: vec![], missing_source: true },
     ]
 }
